@@ -9,7 +9,8 @@
    A diagnostic is (rule class, severity, range, key); the three v2 checkers share one append-only
    collector and nothing else, so the report is modelled as the concatenation of four separate walks
    and compared as a multiset (HashMap iteration order and interleaving are not observable).
-   The purge map's key function is a parameter (keyf): the code uses the exact spelling (identity).
+   The purge map's key function is a parameter (keyf): the code upper-cases the name (since ef936ba;
+   before: the exact spelling, key_exact); the entry keeps the declared spelling for the message.
    No property proofs here. *)
 From GoldV Require Import Base Tokens Lexer AstKinds Tree.
 
@@ -139,14 +140,16 @@ Section Walk2.
 End Walk2.
 
 (* ---- UnpurgedVarByteArrayChecker ---- *)
-Definition pmap := list (str * (range * bool)).         (* HashMap<String, Info{range,is_purged}> *)
+Definition pinfo := ((str * range) * bool)%type.        (* Info{id, range, is_purged} *)
+Definition pmap := list (str * pinfo).                 (* HashMap<String, Info> *)
 
 Definition amark (k : str) (m : pmap) : pmap :=
-  map (fun e : str * (range * bool) => if str_eqb k (fst e) then (fst e, (fst (snd e), true)) else e) m.
+  map (fun e : str * pinfo => if str_eqb k (fst e) then (fst e, (fst (snd e), true)) else e) m.
 
 Definition unpurged_diags (m : pmap) : list diag :=
-  flat_map (fun e : str * (range * bool) =>
-              if snd (snd e) then [] else [mkDiag PURGE WARNING (fst (snd e)) (fst e)]) m.
+  flat_map (fun e : str * pinfo =>
+              if snd (snd e) then []
+              else [mkDiag PURGE WARNING (snd (fst (snd e))) (fst (fst (snd e)))]) m.   (* message prints info.id *)
 
 Definition is_tvba_local (n : node) : bool :=
   is_kind KAstLocalVariableDeclaration n &&
@@ -159,7 +162,7 @@ Definition is_purge_call (n : node) : bool :=
   is_kind KAstMethodCall n && str_eqb (upper (nident n)) s_PURGE.
 
 Section Unpurged.
-  Context (keyf : str -> str).     (* today: the identity (exact spelling) *)
+  Context (keyf : str -> str).     (* today: to_uppercase *)
 
   Definition unp_state := (pmap * list diag)%type.
 
@@ -168,7 +171,7 @@ Section Unpurged.
     if is_kind KAstFunction n then (([] : pmap), snd st1 ++ unpurged_diags (fst st1)) else st1.
 
   Definition unp_local (n : node) (st : unp_state) : unp_state :=
-    if is_tvba_local n then (ainsert (keyf (nident n)) (ident_range n, false) (fst st), snd st) else st.
+    if is_tvba_local n then (ainsert (keyf (nident n)) ((nident n, ident_range n), false) (fst st), snd st) else st.
 
   Definition unp_call (n : node) (st : unp_state) : unp_state :=
     if is_purge_call n then
@@ -186,8 +189,8 @@ Section Unpurged.
   Definition unpurged_lint_k (ast : node) : list diag := snd (run2 unp_visit unp_end ast ([], [])).
 End Unpurged.
 
-Definition key_exact (s : str) : str := s.
-Definition unpurged_lint : node -> list diag := unpurged_lint_k key_exact.
+Definition key_exact (s : str) : str := s.      (* the key before ef936ba *)
+Definition unpurged_lint : node -> list diag := unpurged_lint_k upper.
 
 (* ---- NamingConventionChecker ---- *)
 Definition first_is (c : N) (id : str) : bool := match id with x :: _ => x =? c | [] => false end.
@@ -266,10 +269,13 @@ Definition inh_check (st : inh_state) : inh_state :=
 Definition inh_method_node (n : node) (st : inh_state) : inh_state :=
   let st1 := inh_check st in mkInh false (Some n) (ih_out st1).
 
-(* any AstTerminal whose token value upper-cases to PASS (string literals included) *)
+(* any AstTerminal whose token is not a string literal (since 44578d5) and whose value upper-cases to PASS *)
 Definition is_pass_terminal (n : node) : bool :=
   is_kind KAstTerminal n &&
-  match attr_tok K_token n with Some t => str_eqb (upper_rs (tval t)) s_PASS | None => false end.
+  match attr_tok K_token n with
+  | Some t => negb (tt_eqb (tty t) TStringLiteral) && str_eqb (upper_rs (tval t)) s_PASS
+  | None => false
+  end.
 
 Definition is_inherited_op (n : node) : bool :=
   is_kind KAstUnaryOp n &&
@@ -308,7 +314,7 @@ Definition lints_v2_k (keyf : str -> str) (ast : node) : list diag :=
 Definition lints_k (keyf : str -> str) (ast : node) : list diag :=
   ret_type_lint ast ++ lints_v2_k keyf ast.
 
-Definition lints : node -> list diag := lints_k key_exact.
+Definition lints : node -> list diag := lints_k upper.
 
 (* generate_diagnostics on a document: the v1 list is computed once per document version and cached
    on the Document (get_analyzer_diagnostics / set_analyzer_diagnostics); the v2 list is recomputed
@@ -318,7 +324,7 @@ Definition fresh_doc (ast : node) : doc := mkDoc ast None.
 
 Definition request (d : doc) : list diag * doc :=
   let v1 := match d_cache d with Some l => l | None => ret_type_lint (d_ast d) end in
-  (v1 ++ lints_v2_k key_exact (d_ast d), mkDoc (d_ast d) (Some v1)).
+  (v1 ++ lints_v2_k upper (d_ast d), mkDoc (d_ast d) (Some v1)).
 
 (* ---- canonical observation of the engine: sort key ---- *)
 Definition dclass_idx (c : dclass) : N :=
